@@ -119,7 +119,7 @@ pub fn cancel_history_at(seed: u64, polls: Option<u64>, thorough: bool, boundari
 }
 
 /// C10, out of space: the same operations under LMDB map sizes from tiny to ample.
-pub fn mapfull_histories(seed: u64) -> Vec<History> {
+pub fn mapfull_histories(seed: u64, pages: Option<(u64, u64)>, fine: bool) -> Vec<History> {
     let mut rng = StdRng::seed_from_u64(seed);
     let p = profile("forest");
     let metric = *ALL_METRICS.choose(&mut rng).unwrap();
@@ -129,7 +129,16 @@ pub fn mapfull_histories(seed: u64) -> Vec<History> {
     let (first, second) = items.split_at((n as usize) * 2 / 3);
     let o = BuildOpts { n_trees: Some(2), seed: rng.gen(), ..Default::default() };
     let mut out = Vec::new();
-    for shift in [15usize, 16, 17, 18, 19, 20, 21, 23, 28] {
+    // powers of two from tiny to ample, then (when the page usage of the fault-free run is known) every few pages
+    // between what the first version needs and what the last one needs: the second build then runs out of space in
+    // each of its phases in turn, including the write-back of the temp nodes
+    let mut sizes: Vec<usize> = [15usize, 16, 17, 18, 19, 20, 21, 23, 28].iter().map(|s| 1usize << s).collect();
+    if let Some((lo, hi)) = pages {
+        let (lo, hi) = (lo as usize, hi as usize + 3);
+        let step = ((hi.saturating_sub(lo)) / if fine { 60 } else { 22 }).max(1);
+        sizes.extend((lo..=hi).step_by(step).map(|p| p * 4096));
+    }
+    for map_size in sizes {
         let ops = vec![
             Op::AddMany { idx: 3, items: first.to_vec() },
             Op::Build { idx: 3, o: o.clone() },
@@ -144,14 +153,56 @@ pub fn mapfull_histories(seed: u64) -> Vec<History> {
         out.push(History {
             indexes: vec![IndexDecl { idx: 3, metric, dim }],
             ops,
-            map_size: 1 << shift,
-            label: format!("mapfull:{seed}:{shift}"),
+            map_size,
+            label: format!("mapfull:{seed}:{map_size}"),
             faults: vec!["mapfull".into()],
             max_polls: 2_000_000,
             sides: false,
         });
     }
     out
+}
+
+/// C10, out of space at page granularity: a committed built index with committed, unbuilt insertions and deletions;
+/// then the same build under every number of free pages from 0 to what it needs (the map is resized before each
+/// attempt), each followed by an abort; finally an ample map, a build, a search and a commit.
+pub fn mapfull_pages_history(seed: u64, need: Option<u64>, fine: bool) -> History {
+    let mut rng = StdRng::seed_from_u64(seed);
+    let p = profile("forest");
+    let metric = *ALL_METRICS.choose(&mut rng).unwrap();
+    let dim = *[8usize, 30].choose(&mut rng).unwrap();
+    let n: u32 = *[60u32, 120, 200].choose(&mut rng).unwrap();
+    let items: Vec<(u32, Vec<u32>)> = (0..n).map(|id| (id, gen_vector(&mut rng, dim, &p, false))).collect();
+    let (first, second) = items.split_at((n as usize) * 2 / 3);
+    let o = BuildOpts { n_trees: Some(2), seed: rng.gen(), ..Default::default() };
+    let mut ops = vec![
+        Op::AddMany { idx: 3, items: first.to_vec() },
+        Op::Build { idx: 3, o: BuildOpts { map_free_pages: Some(1 << 16), ..o.clone() } },
+        Op::Commit,
+        Op::AddMany { idx: 3, items: second.to_vec() },
+        Op::DelMany { idx: 3, ids: (0..n / 3).collect() },
+        Op::Commit,
+    ];
+    if let Some(k) = need {
+        let k = k as usize + 6;
+        let step = if fine { 1 } else { (k / 45).max(1) };
+        for free in (0..=k).step_by(step) {
+            ops.push(Op::Build { idx: 3, o: BuildOpts { map_free_pages: Some(free), ..o.clone() } });
+            ops.push(Op::Abort);
+        }
+    }
+    ops.push(Op::Build { idx: 3, o: BuildOpts { map_free_pages: Some(1 << 16), ..o.clone() } });
+    ops.push(Op::Search { idx: 3, seed: rng.gen() });
+    ops.push(Op::Commit);
+    History {
+        indexes: vec![IndexDecl { idx: 3, metric, dim }],
+        ops,
+        map_size: 1 << 30,
+        label: format!("mapfull-pages:{seed}"),
+        faults: vec!["mapfull".into()],
+        max_polls: 2_000_000,
+        sides: false,
+    }
 }
 
 /// C10, unusable temp directory, then a usable one (no entry may stay behind)
